@@ -1,4 +1,4 @@
 From Coq Require Import Extraction ExtrOcamlBasic NArith.
 From DV Require Import Base.Outcome C16.Gen C16.Model.
 Extraction Language OCaml.
-Extraction "../build/ml/C16/model.ml" c16_hint c16_push c16_udp c16_srv c16_accept c16_idle c16_limit c16_ck c16_pad c16_tcp c16_frame_out c16_conn c16_cfg.
+Extraction "../build/ml/C16/model.ml" c16_hint c16_push c16_udp c16_srv c16_recfg c16_accept c16_idle c16_limit c16_ck c16_pad c16_tcp c16_frame_out c16_conn c16_cfg.
